@@ -25,8 +25,8 @@ inductive Val
   | meth (ty : String) (name : String) (recv : Val)
 deriving Inhabited
 
-/-- first error wins? no: the visitor overwrites; we record the class of the *last* error and whether the
-    final error still wraps the injected sentinel -/
+/-- class of the recorded error (the visitor keeps the FIRST one, see `setErr`): whether it wraps the sentinel
+    returned by a user function / `exp.ErrNoSuchValue` -/
 structure Err where
   sentinel : Bool          -- the error wraps the sentinel returned by a user function
   nosuch : Bool := false   -- the error wraps exp.ErrNoSuchValue
@@ -302,18 +302,41 @@ def scopeGet (frames : List Val) (name : String) : Look :=
 
 def toInt64 (v : Val) : Option Int := isInt v
 
-/-- fmt's %v for the values that reach a compared output -/
-partial def fmtV : Val → Option String
+/- fmt's %v for the values that reach a compared output; structural recursion over the (nested) value.
+   Map entries are formatted first and sorted by key afterwards (the comparison only looks at the keys, so the
+   order is the one obtained by sorting the entries themselves). -/
+mutual
+def fmtV : Val → Option String
   | .nil => some "<nil>"
   | .bool b => some (toString b)
   | .int _ v => some (toString v)
   | .str s => some s
-  | .slice _ xs _ | .array _ xs =>
-    (xs.mapM fmtV).map fun ss => "[" ++ " ".intercalate ss ++ "]"
+  | .slice _ xs _ => (fmtVs xs).map fun ss => "[" ++ " ".intercalate ss ++ "]"
+  | .array _ xs => (fmtVs xs).map fun ss => "[" ++ " ".intercalate ss ++ "]"
   | .map _ kvs =>
-    let sorted := kvs.toArray.qsort (fun a b => a.1 < b.1) |>.toList
-    (sorted.mapM fun kv => (fmtV kv.2).map fun v => kv.1 ++ ":" ++ v).map fun ss => "map[" ++ " ".intercalate ss ++ "]"
+    (fmtKVs kvs).map fun ps =>
+      let sorted := ps.toArray.qsort (fun a b => a.1 < b.1) |>.toList
+      "map[" ++ " ".intercalate (sorted.map fun kv => kv.1 ++ ":" ++ kv.2) ++ "]"
   | _ => none           -- floats, pointers, funcs, structs: %v not modelled
+def fmtVs : List Val → Option (List String)
+  | [] => some []
+  | x :: xs =>
+    match fmtV x with
+    | none => none
+    | some s =>
+      match fmtVs xs with
+      | none => none
+      | some ss => some (s :: ss)
+def fmtKVs : List (String × Val) → Option (List (String × String))
+  | [] => some []
+  | (k, v) :: kvs =>
+    match fmtV v with
+    | none => none
+    | some s =>
+      match fmtKVs kvs with
+      | none => none
+      | some ps => some ((k, s) :: ps)
+end
 
 def lenOf : Val → Option Nat
   | .str s => some s.utf8ByteSize
@@ -445,24 +468,29 @@ def tyOf (fns : List (String × FnSpec)) : Val → String
   | .func id => (match fns.find? (·.1 = id) with | some (_, sp) => sp.sig | none => id)
   | .meth ty n _ => "meth:" ++ ty ++ "." ++ n
 
-/-- Go's `==` on two interface values holding our universe; none = runtime panic (uncomparable type) -/
-partial def ifaceEq (fns : List (String × FnSpec)) (a b : Val) : Option Bool :=
+/- Go's `==` on two interface values holding our universe; none = runtime panic (uncomparable type).
+   Structural recursion over the first value; arrays are compared element-wise (`ifaceEqs`). -/
+mutual
+def ifaceEq (fns : List (String × FnSpec)) (a b : Val) : Option Bool :=
   match a, b with
   | .nil, .nil => some true
   | .nil, _ | _, .nil => some false
-  | _, _ =>
-    if tyOf fns a ≠ tyOf fns b then some false else
-    match a, b with
-    | .bool x, .bool y => some (x == y)
-    | .int _ x, .int _ y => some (x == y)
-    | .f64 x, .f64 y => some (x == y)
-    | .f32 x, .f32 y => some (x == y)
-    | .str x, .str y => some (x == y)
-    | .ptr _ i _, .ptr _ j _ => some (i == j)
-    | .array _ xs, .array _ ys =>
-      (List.zip xs ys).foldl (fun acc (p : Val × Val) => match acc, ifaceEq fns p.1 p.2 with
-        | some r, some e => some (r && e) | _, _ => none) (some true)
-    | _, _ => none        -- slices, maps, funcs, structs with uncomparable fields
+  | .bool x, .bool y => if tyOf fns a ≠ tyOf fns b then some false else some (x == y)
+  | .int _ x, .int _ y => if tyOf fns a ≠ tyOf fns b then some false else some (x == y)
+  | .f64 x, .f64 y => if tyOf fns a ≠ tyOf fns b then some false else some (x == y)
+  | .f32 x, .f32 y => if tyOf fns a ≠ tyOf fns b then some false else some (x == y)
+  | .str x, .str y => if tyOf fns a ≠ tyOf fns b then some false else some (x == y)
+  | .ptr _ i _, .ptr _ j _ => if tyOf fns a ≠ tyOf fns b then some false else some (i == j)
+  | .array _ xs, .array _ ys => if tyOf fns a ≠ tyOf fns b then some false else ifaceEqs fns xs ys
+  | _, _ => if tyOf fns a ≠ tyOf fns b then some false else none   -- slices, maps, funcs, structs with uncomparable fields
+/-- all element comparisons must be defined; the result is their conjunction (over the common prefix) -/
+def ifaceEqs (fns : List (String × FnSpec)) : List Val → List Val → Option Bool
+  | x :: xs, y :: ys =>
+    match ifaceEq fns x y, ifaceEqs fns xs ys with
+    | some e, some r => some (e && r)
+    | _, _ => none
+  | _, _ => some true
+end
 
 /-- numEqual (exp/visitor.go): numbers are compared by value, whatever Go type carries them -/
 def numEq (l r : Val) : Option Bool :=
@@ -501,173 +529,209 @@ def relOp (fns : List (String × FnSpec)) (op : String) (l r : Val) : M Val := d
         | .str a, .str b => return .bool (cmp a b)
         | _, _ => setErr
 
-partial def eval (fns : List (String × FnSpec)) (data : List Val) : E → M Val
-  | .lit "nil" _ => do if ← hasErr then return .nil else return .nil
-  | .lit "int" t => do
-    if ← hasErr then return .nil
-    match parseIntLit t with | some v => return .int .int64 v | none => goPanic
-  | .lit "float" t => do
-    if ← hasErr then return .nil
-    match parseFloatLit t with | some v => return .f64 v | none => unsupp
-  | .lit "str" t => do
-    if ← hasErr then return .nil
-    match decodeStr t with
-    | .ok s => return .str s
+/-! ## the tree walk
+
+`eval` is total: structural recursion over the (nested) syntax tree, with `evalArgs` for argument lists and
+`evalOpt` for the optional slice bounds.  Everything that is not a recursive call lives in the named step
+functions below, which take the (not yet run) evaluations of the sub-expressions as monadic arguments. -/
+
+/-- every `Visit…` starts with `if v.error != nil { return nil }` -/
+def guardErr (m : M Val) : M Val := do
+  if ← hasErr then return .nil else m
+
+/-- VisitLiteral -/
+def evalLit (kind text : String) : M Val :=
+  match kind with
+  | "nil" => guardErr (pure .nil)
+  | "int" => guardErr (match parseIntLit text with | some v => pure (.int .int64 v) | none => goPanic)
+  | "float" => guardErr (match parseFloatLit text with | some v => pure (.f64 v) | none => unsupp)
+  | "str" => guardErr (match decodeStr text with
+    | .ok s => pure (.str s)
     | .bad => goPanic
-    | .unsupported => unsupp
-  | .lit _ _ => goPanic
-  | .name n => do
-    if ← hasErr then return .nil
-    match scopeGet data n with
-    | .found v => return v
-    | .absent => setErr false true
-    | .failed => setErr
-  | .paren e => do if ← hasErr then return .nil else eval fns data e
-  | .un op e => do
-    if ← hasErr then return .nil
-    let v ← eval fns data e
-    match op with
-    | "+" => match isInt v with
-      | some a => return .int .int64 a
-      | none => match isFloat v with | some x => return .f64 x | none => setErr
-    | "-" => match isInt v with
-      | some a => return .int .int64 (wrap64 (-a))
-      | none => match isFloat v with | some x => return .f64 (-x) | none => setErr
-    | "!" => match v with | .bool b => return .bool !b | _ => setErr
-    | "^" => match isInt v with | some a => return .int .int64 (~~~ (BitVec.ofInt 64 a)).toInt | none => setErr
-    | "*" => match v with
-      | .ptr _ _ (some t) => return t
-      | .ptr _ _ none => goPanic
-      | _ => setErr
-    | "&" => goPanic
+    | .unsupported => unsupp)
+  | _ => goPanic
+
+/-- result of a lookup (`Scope.Get`, `getValue`) turned into a value or a recorded error -/
+def lookRes : Look → M Val
+  | .found v => pure v
+  | .absent => setErr false true
+  | .failed => setErr
+
+/-- unOp -/
+def unOp (op : String) (v : Val) : M Val :=
+  match op with
+  | "+" => match isInt v with
+    | some a => pure (.int .int64 a)
+    | none => match isFloat v with | some x => pure (.f64 x) | none => setErr
+  | "-" => match isInt v with
+    | some a => pure (.int .int64 (wrap64 (-a)))
+    | none => match isFloat v with | some x => pure (.f64 (-x)) | none => setErr
+  | "!" => match v with | .bool b => pure (.bool !b) | _ => setErr
+  | "^" => match isInt v with | some a => pure (.int .int64 (~~~ (BitVec.ofInt 64 a)).toInt) | none => setErr
+  | "*" => match v with
+    | .ptr _ _ (some t) => pure t
+    | .ptr _ _ none => goPanic
     | _ => setErr
-  | .bin "&&" l r => do
-    if ← hasErr then return .nil
-    let a ← eval fns data l
-    if let .bool false := a then return .bool false
-    let b ← eval fns data r
+  | "&" => goPanic
+  | _ => setErr
+
+/-- logOp: both operands evaluated, both must be bool -/
+def logOp (f : Bool → Bool → Bool) (a b : Val) : M Val :=
+  match a, b with
+  | .bool x, .bool y => pure (.bool (f x y))
+  | _, _ => setErr
+
+/-- `&&` after the left operand: `false` short-circuits, anything else evaluates the right operand -/
+def andStep (a : Val) (mr : M Val) : M Val :=
+  match a with
+  | .bool false => pure (.bool false)
+  | _ => do let b ← mr; logOp (· && ·) a b
+
+/-- `||` after the left operand: `true` short-circuits -/
+def orStep (a : Val) (mr : M Val) : M Val :=
+  match a with
+  | .bool true => pure (.bool true)
+  | _ => do let b ← mr; logOp (· || ·) a b
+
+/-- mulOp / addOp / relOp on two evaluated operands -/
+def binOp (fns : List (String × FnSpec)) (op : String) (a b : Val) : M Val :=
+  if ["*", "/"].contains op then numBin op a b
+  else if ["%", "<<", ">>", "&", "&^"].contains op then intBin op a b
+  else if op = "+" then
     match a, b with
-    | .bool x, .bool y => return .bool (x && y)
-    | _, _ => setErr
-  | .bin "||" l r => do
-    if ← hasErr then return .nil
-    let a ← eval fns data l
-    if let .bool true := a then return .bool true
-    let b ← eval fns data r
-    match a, b with
-    | .bool x, .bool y => return .bool (x || y)
-    | _, _ => setErr
-  | .bin op l r => do
-    if ← hasErr then return .nil
-    let a ← eval fns data l
-    let b ← eval fns data r
-    if ["*", "/"].contains op then numBin op a b
-    else if ["%", "<<", ">>", "&", "&^"].contains op then intBin op a b
-    else if op = "+" then
-      match a, b with
-      | .str x, .str y => return .str (x ++ y)
-      | .str _, _ | _, .str _ =>
-        match fmtV a, fmtV b with
-        | some x, some y => return .str (x ++ y)
-        | _, _ => unsupp
-      | _, _ => numBin op a b
-    else if op = "-" then numBin op a b
-    else if ["|", "^"].contains op then intBin op a b
-    else relOp fns op a b
-  | .cond c a b => do
-    if ← hasErr then return .nil
-    match ← eval fns data c with
-    | .bool true => eval fns data a
-    | .bool false => eval fns data b
-    | _ => setErr
-  | .field e _ n => do
-    if ← hasErr then return .nil
-    let pv ← eval fns data e
-    match getValue n pv with
-    | .found v => return v
-    | .absent => setErr false true
-    | .failed => setErr
-  | .index e i => do
-    if ← hasErr then return .nil
-    let pv ← eval fns data e
-    let iv ← eval fns data i
-    let name? := match isInt iv with
-      | some v => some (toString v)          -- any integer kind (IsInt)
-      | none => match iv with
-        | .str s => some s
-        | _ => none
-    match name? with
-    | none => setErr
-    | some n => match getValue n pv with
-      | .found v => return v
-      | .absent => setErr false true
-      | .failed => setErr
-  | .slice e lo hi cap => do
-    if ← hasErr then return .nil
-    let pv ← eval fns data e
-    -- an array value is copied to an addressable variable and sliced like a slice whose cap is its length
-    let asSlice : Option (String × List Val × Nat) := match pv with
-      | .slice sty xs c => some (sty, xs, c)
-      | .array aty xs => some ("[]" ++ String.ofList ((aty.toList.dropWhile (· ≠ ']')).drop 1), xs, xs.length)
+    | .str x, .str y => pure (.str (x ++ y))
+    | .str _, _ | _, .str _ =>
+      match fmtV a, fmtV b with
+      | some x, some y => pure (.str (x ++ y))
+      | _, _ => unsupp
+    | _, _ => numBin op a b
+  else if op = "-" then numBin op a b
+  else if ["|", "^"].contains op then intBin op a b
+  else relOp fns op a b
+
+/-- a binary expression: `ml`, `mr` are the evaluations of the operands -/
+def binStep (fns : List (String × FnSpec)) (op : String) (ml mr : M Val) : M Val :=
+  if op = "&&" then do let a ← ml; andStep a mr
+  else if op = "||" then do let a ← ml; orStep a mr
+  else do let a ← ml; let b ← mr; binOp fns op a b
+
+/-- `c ? a : b` after the condition -/
+def condStep (c : Val) (ma mb : M Val) : M Val :=
+  match c with
+  | .bool true => ma
+  | .bool false => mb
+  | _ => setErr
+
+/-- `pv[iv]` -/
+def indexOp (pv iv : Val) : M Val :=
+  let name? := match isInt iv with
+    | some v => some (toString v)          -- any integer kind (IsInt)
+    | none => match iv with
+      | .str s => some s
       | _ => none
-    match asSlice with
-    | some (sty, xs, c) =>
-      let getI (x : Option E) (dflt : Int) : M (Option Int) := do
-        match x with
-        | none => return some dflt
-        | some ex => return isInt (← eval fns data ex)      -- any integer kind
-      match ← getI lo 0 with
-      | none => setErr
-      | some s =>
-        match ← getI hi xs.length with
-        | none => setErr
-        | some en =>
-          match cap with
-          | none =>
-            if 0 ≤ s ∧ s ≤ en ∧ en ≤ c then
-              if en.toNat ≤ xs.length then return .slice sty ((xs.drop s.toNat).take (en.toNat - s.toNat)) (c - s.toNat)
-              else unsupp    -- beyond len within cap: needs the backing array, not modelled
-            else goPanic
-          | some cx =>
-            match ← getI (some cx) 0 with
-            | none => setErr
-            | some m =>
-              if 0 ≤ s ∧ s ≤ en ∧ en ≤ m ∧ m ≤ c then
-                if en.toNat ≤ xs.length then return .slice sty ((xs.drop s.toNat).take (en.toNat - s.toNat)) (m.toNat - s.toNat)
-                else unsupp
-              else goPanic
+  match name? with
+  | none => setErr
+  | some n => lookRes (getValue n pv)
+
+/-- an array value is copied to an addressable variable and sliced like a slice whose cap is its length -/
+def asSlice : Val → Option (String × List Val × Nat)
+  | .slice sty xs c => some (sty, xs, c)
+  | .array aty xs => some ("[]" ++ String.ofList ((aty.toList.dropWhile (· ≠ ']')).drop 1), xs, xs.length)
+  | _ => none
+
+/-- `pv[lo:hi]` / `pv[lo:hi:cap]`; `glo d`, `ghi d`, `gcap d` evaluate a bound whose default is `d` -/
+def sliceStep (pv : Val) (glo ghi gcap : Int → M (Option Int)) (hasCap : Bool) : M Val :=
+  match asSlice pv with
+  | some (sty, xs, c) => do
+    match ← glo 0 with
     | none => setErr
-  | .call e args ell => do
+    | some s =>
+      match ← ghi xs.length with
+      | none => setErr
+      | some en =>
+        if !hasCap then
+          if 0 ≤ s ∧ s ≤ en ∧ en ≤ c then
+            if en.toNat ≤ xs.length then pure (.slice sty ((xs.drop s.toNat).take (en.toNat - s.toNat)) (c - s.toNat))
+            else unsupp    -- beyond len within cap: needs the backing array, not modelled
+          else goPanic
+        else
+          match ← gcap 0 with
+          | none => setErr
+          | some m =>
+            if 0 ≤ s ∧ s ≤ en ∧ en ≤ m ∧ m ≤ c then
+              if en.toNat ≤ xs.length then pure (.slice sty ((xs.drop s.toNat).take (en.toNat - s.toNat)) (m.toNat - s.toNat))
+              else unsupp
+            else goPanic
+  | none => setErr
+
+/-- callFunc and the treatment of its results -/
+def invoke (fns : List (String × FnSpec)) (pv : Val) (vs : List Val) : M Val := do
+  let nm := match pv with | .func id => id | .meth _ n _ => n | _ => "?"
+  -- only user functions placed in the data log their calls (methods of the harness types do not)
+  let isUserFn := match pv with | .func id => !id.startsWith "builtin:" | _ => false
+  match callFn fns pv vs with
+  | .unsupported => unsupp
+  | .notEntered => setErr
+  | .panicInside =>
+    if isUserFn then logCall nm
+    setErr
+  | .results rs second =>
+    if isUserFn then logCall nm
+    match rs, second with
+    | [r], none => pure r
+    | [_, _], none => setErr
+    | [r, _], some sentinel => if sentinel then setErr true else pure r
+    | _, _ => setErr
+
+/-- `f(args...)`: the last argument must be a slice, its elements are appended -/
+def callFinish (fns : List (String × FnSpec)) (pv : Val) (vs : List Val) (ell : Bool) : M Val :=
+  if ell then
+    match vs.getLast? with
+    | some (.slice _ xs _) => invoke fns pv (vs.dropLast ++ xs)
+    | _ => setErr
+  else invoke fns pv vs
+
+/-- a call after the callee: `margs` evaluates the argument list (VisitExpressionList) -/
+def callStep (fns : List (String × FnSpec)) (pv : Val) (noArgs ell : Bool) (margs : M (List Val)) : M Val :=
+  if !isFuncVal pv then setErr
+  else if noArgs then callFinish fns pv [] ell
+  else do
     if ← hasErr then return .nil
-    let pv ← eval fns data e
-    if !isFuncVal pv then setErr
-    else
-      let mut vs : List Val := []
-      if !args.isEmpty then
-        if ← hasErr then return .nil
-        for a in args do
-          vs := vs ++ [← eval fns data a]
-        if ← hasErr then return .nil
-      if ell then
-        match vs.getLast? with
-        | some (.slice _ xs _) => vs := vs.dropLast ++ xs
-        | _ => return ← setErr
-      let nm := match pv with | .func id => id | .meth _ n _ => n | _ => "?"
-      -- only user functions placed in the data log their calls (methods of the harness types do not)
-      let isUserFn := match pv with | .func id => !id.startsWith "builtin:" | _ => false
-      match callFn fns pv vs with
-      | .unsupported => unsupp
-      | .notEntered => setErr
-      | .panicInside =>
-        if isUserFn then logCall nm
-        setErr
-      | .results rs second =>
-        if isUserFn then logCall nm
-        match rs, second with
-        | [r], none => return r
-        | [_, _], none => setErr
-        | [r, _], some sentinel => if sentinel then setErr true else return r
-        | _, _ => setErr
+    let vs ← margs
+    if ← hasErr then return .nil
+    callFinish fns pv vs ell
+
+mutual
+def eval (fns : List (String × FnSpec)) (data : List Val) : E → M Val
+  | .lit kind text => evalLit kind text
+  | .name n => guardErr (lookRes (scopeGet data n))
+  | .paren e => guardErr (eval fns data e)
+  | .un op e => guardErr (do let v ← eval fns data e; unOp op v)
+  | .bin op l r => guardErr (binStep fns op (eval fns data l) (eval fns data r))
+  | .cond c a b => guardErr (do let cv ← eval fns data c; condStep cv (eval fns data a) (eval fns data b))
+  | .field e _ n => guardErr (do let pv ← eval fns data e; lookRes (getValue n pv))
+  | .index e i => guardErr (do let pv ← eval fns data e; let iv ← eval fns data i; indexOp pv iv)
+  | .slice e lo hi cap => guardErr (do
+      let pv ← eval fns data e
+      sliceStep pv (fun d => evalOpt fns data lo d) (fun d => evalOpt fns data hi d) (fun d => evalOpt fns data cap d)
+        cap.isSome)
+  | .call e args ell => guardErr (do
+      let pv ← eval fns data e
+      callStep fns pv args.isEmpty ell (evalArgs fns data args))
+/-- VisitExpressionList: all arguments, left to right -/
+def evalArgs (fns : List (String × FnSpec)) (data : List Val) : List E → M (List Val)
+  | [] => pure []
+  | a :: rest => do
+    let v ← eval fns data a
+    let vs ← evalArgs fns data rest
+    pure (v :: vs)
+/-- an optional slice bound: absent = the default, otherwise the expression must yield an integer of any kind -/
+def evalOpt (fns : List (String × FnSpec)) (data : List Val) : Option E → Int → M (Option Int)
+  | none, dflt => pure (some dflt)
+  | some ex, _ => do
+    let v ← eval fns data ex
+    pure (isInt v)
+end
 
 def canon : Val → String
   | .nil => "nil"
